@@ -242,6 +242,10 @@ def alias_probe(ctx, mon, rng, ex, hg):
                 ctx.ev('result-pieces-distinct')
                 ctx.violation('result-pieces-are-one-object', {'op': op, 'piece': i}, mech='aliasing-between-pieces:' + op['m'])
                 return
+        if len(results) > 12:
+            # (iteration / split of a long value: every piece was checked for identity above; the snapshot-and-mutate
+            #  part, which costs a full observation per piece, takes the pieces at both ends)
+            results = results[:6] + results[-6:]
         # (1) mutate results, re-observe sources (and the sibling pieces)
         snaps = [Snap(L, s) for s in srcs]
         for ri, r in enumerate(results):
